@@ -11,6 +11,7 @@ C19 driver. Graph tokens: `<edges> <biases>`; edges = comma list of `a:b:num/den
  imp  <edges> <nbiases>            → `~b_k` cumulative selection boundaries (k = 0..E-2); `uniform` when Σ|J| = 0
  kern <kind spin|edge|worm> <edges> <biases> <beta> <imp>
       → `~K(a,b)` for all states a, b (binary counting order, spin 0 = most significant)
+ rd <sorted list>                   → `remove_doubles` (values of odd multiplicity)
  energy <edges> <biases> <state>   → `<get_energy> <edge-list energy>`
 -/
 
@@ -74,6 +75,7 @@ def step (toks : List String) : String :=
     String.intercalate " " (sts.flatMap fun a =>
       let r := rowOf a
       sts.map fun b => showApprox (rowProb r b))
+  | ["rd", l] => showNats (removeDoubles (parseNats l))
   | ["energy", edges, biases, state] =>
     let g := Sampler.new (parseEdges edges) (parseRats biases) false
     let s := parseBits state
